@@ -44,6 +44,12 @@ Step ==
        [] e.ev = "Announce" -> AbsAnnounceQ(e.e, e.c, Obs(e)) /\ UNCHANGED <<run, known8>>
        [] e.ev = "CreateLocal" -> AbsCreateLocal(e.side, Obs(e)) /\ UNCHANGED <<run, known8>>
        [] e.ev = "DisposeE" -> AbsDisposeE(e.e, Obs(e)) /\ UNCHANGED <<run, known8>>
+       \* C06 on the event-loop plumbing (runs of `vh disc hostile`): traffic of the well-behaved pair and hostile ACKNACKs
+       [] e.ev \in {"Write", "Turn", "HostileAck", "Ack"} -> UNCHANGED <<dabsVars, run, known8>>
+       \* ... after which the acknowledgment of the well-behaved reader must have reached the writer
+       [] e.ev = "AckServed" ->
+            /\ viol' = viol \cup (IF ~e.present \/ e.acked < e.expected THEN {"C06_acknack_of_well_behaved_peer_not_processed"} ELSE {})
+            /\ UNCHANGED <<now, known, lastSign, lease, ann, attic, fuzzy, stale, cls, haveW, haveR, totW, totR, run, known8>>
   /\ (viol' # viol /\ viol' # {}) =>
         PrintT("VIOL line=" \o ToString(l) \o " run=" \o ToString(run') \o " clauses=" \o ToString(viol' \ viol))
   /\ (known8' # known8 /\ known8' # {}) =>
